@@ -11,6 +11,18 @@ pub mod option_i64_str {
             write!(formatter, "an integer")
         }
 
+        fn visit_none<E: Error>(self) -> Result<Self::Value, E> {
+            Ok(None)
+        }
+
+        fn visit_unit<E: Error>(self) -> Result<Self::Value, E> {
+            Ok(None)
+        }
+
+        fn visit_some<D: Deserializer<'de>>(self, deserializer: D) -> Result<Self::Value, D::Error> {
+            deserializer.deserialize_str(StrVisitor)
+        }
+
         fn visit_str<E: Error>(self, value: &str) -> Result<Self::Value, E> {
             if value.is_empty() {
                 Ok(None)
@@ -27,7 +39,7 @@ pub mod option_i64_str {
     where
         D: Deserializer<'de>,
     {
-        deserializer.deserialize_str(StrVisitor)
+        deserializer.deserialize_option(StrVisitor)
     }
 
     pub fn serialize<S>(value: &Option<i64>, serializer: S) -> Result<S::Ok, S::Error>
